@@ -815,6 +815,12 @@ impl Iterator for ClosestBucketsIter {
                 } else {
                     let i = BucketIndex(0);
                     self.state = ClosestBucketsIterState::ZoomOut(i);
+                    // Bucket `0` has already been visited if it was the starting bucket (the
+                    // distance is 0 or 1) or if it was zoomed into (bit 0 of the distance is
+                    // set). Yielding it again would return its nodes twice.
+                    if self.distance.0.bit(0) || self.distance.0.is_zero() {
+                        return self.next();
+                    }
                     Some(i)
                 }
             }
